@@ -63,6 +63,7 @@ type Ctx struct {
 	ginitCache    map[*ssa.Global]*ssa.Function
 	identMemo     map[*ssa.Function]int
 	inlineHelpers bool
+	subseqMemo    map[*ssa.Function]int
 	aliasMemo     map[*ssa.Global]*ssa.Global
 	// names for the parameters of the function a thin wrapper forwards to (read in the wrapper's frame)
 	baseEnv Env
